@@ -1343,7 +1343,7 @@ fn build_universe(pattern: usize) -> Result<Universe, Refused> {
 	})
 }
 
-const OPS: [&str; 35] = [
+const OPS: [&str; 36] = [
 	"identity",
 	"height+1",
 	"height-1",
@@ -1357,6 +1357,7 @@ const OPS: [&str; 35] = [
 	"prev_hash=sibling",
 	"prev_hash=unknown",
 	"prev_hash=zero",
+	"prev_hash=grandparent+its-root",
 	"prev_root-bitflip",
 	"total_difficulty+1",
 	"total_difficulty-1",
@@ -1422,6 +1423,15 @@ fn mutate(u: &Universe, h: u64, op: &str, remined: bool, now_s: i64) -> Option<B
 		},
 		"prev_hash=unknown" => m.prev_hash = Hash::from_vec(&[0xabu8; 32]),
 		"prev_hash=zero" => m.prev_hash = Hash::from_vec(&[0u8; 32]),
+		"prev_hash=grandparent+its-root" => {
+			// names the header two below (a known one) and commits to the header MMR root that goes with it;
+			// height, time and difficulty still continue the positional neighbour in a batch
+			if h < 2 {
+				return None;
+			}
+			m.prev_hash = u.blocks[h as usize - 2].header.hash();
+			m.prev_root = parent.prev_root;
+		}
 		"prev_root-bitflip" => m.prev_root = flip_last(&m.prev_root),
 		"total_difficulty+1" => m.pow.total_difficulty = Difficulty::from_num(orig.pow.total_difficulty.to_num() + 1),
 		"total_difficulty-1" => m.pow.total_difficulty = Difficulty::from_num(orig.pow.total_difficulty.to_num() - 1),
